@@ -2,7 +2,7 @@
 import itertools
 from . import common as C
 
-WIDTHS = ["-", "1", "8", "32", "64", "128", "4294967295"]
+WIDTHS = ["-", "0", "1", "8", "32", "64", "128", "4294967295"]     # 0: the placeholder an invalid designator leaves
 SHAPES = ["3", "5", "3,4", "2,3,4"]
 ARITH = ["Add", "Sub", "Mul", "Div", "Rem", "Mod", "Shl", "Shr", "BitXOr", "BitOr", "BitAnd"]
 
@@ -276,7 +276,7 @@ def check(ctx):
     ctx.coverage.update({
         "evaluations": len(pairs) + ntrip,
         "distinct_nontrivial": nontrivial,
-        "rule": "all ordered pairs over the finite abstraction of the type space (27 constructors x widths {none,1,8,32,64,128,2^32-1} x const x 4 array shapes); non-trivial = promotion yields a common type; thorough adds all triples with defined promotions (associativity)",
+        "rule": "all ordered pairs over the finite abstraction of the type space (27 constructors x widths {none,0,1,8,32,64,128,2^32-1} x const x 4 array shapes); non-trivial = promotion yields a common type; thorough adds all triples with defined promotions (associativity)",
         "exhaustive": True,
         "traces_validated_against_impl": len(pairs) if have_model else 0,
         "correspondence_disagreements": ndis,
